@@ -137,7 +137,7 @@ Proof.
   intros o inc. split; [apply consumed_min|]. split; [apply remaining_eq|].
   destruct (m_updated (match_against o inc)) eqn:Hu.
   - apply conservation; assumption.
-  - apply leaves_hidden_reduced; assumption.
+  - split; [apply leaves_hidden_reduced | apply leaves_exhausted]; assumption.
 Qed.
 
 Lemma same_identity_oid a b : same_identity a b -> oid_of a = oid_of b.
